@@ -9,6 +9,10 @@ VALID_A = 'fn main() -> i32\n{\n\tprint!("out-a\\n");\n\treturn: 7\n}\n'
 VALID_MULTI = ('import "lib.pn";\nfn main() -> i32\n{\n\tprint!("out-m\\n");\n\treturn: twice(4)\n}\n',
                'pub fn twice(x: i32) -> i32\n{\n\treturn: x + x\n}\n')
 INVALID = 'fn main() -> i32\n{\n\tvar x: i32 = undefined_name;\n\treturn: x\n}\n'
+# an import of a bundled package that was not passed on the command line: the diagnostic carries a note with a hint
+INVALID_HINT = 'import "core:text/char.pn";\nfn main() -> i32\n{\n\treturn: 0\n}\n'
+DIRS = {"top.pn": 'import "geo/util.pn";\nimport "audio/util.pn";\nfn main() -> i32\n{\n\treturn: area(2) + louder(3)\n}\n',
+        "geo/util.pn": 'pub fn area(x: i32) -> i32\n{\n\treturn: x * x\n}\n', "audio/util.pn": 'pub fn louder(x: i32) -> i32\n{\n\treturn: x + 1\n}\n'}
 
 
 def build_penne(ck):
@@ -40,7 +44,8 @@ def run(tier):
     root = os.path.join(ck.work, "cli")
     os.makedirs(root, exist_ok=True)
     configs = []
-    inputs = {"valid": (["a.pn"], True), "multi": (["main.pn", "lib.pn"], True), "invalid": (["bad.pn"], False), "mixed": (["a.pn", "bad.pn"], False)}
+    inputs = {"valid": (["a.pn"], True), "multi": (["main.pn", "lib.pn"], True), "invalid": (["bad.pn"], False), "mixed": (["a.pn", "bad.pn"], False),
+              "dirs": (["top.pn", "geo/util.pn", "audio/util.pn"], True), "hint": (["hint.pn"], False)}
     for sub in ("build", "run", "emit"):
         for inp in inputs:
             opts_space = [("silent", [False, True]), ("verbose", [False, True]), ("color", [None, "never", "always"]), ("arrows", [None, "ascii", "unicode"]),
@@ -60,7 +65,9 @@ def run(tier):
         shutil.rmtree(d, ignore_errors=True); os.makedirs(d)
         open(os.path.join(d, "a.pn"), "w").write(VALID_A)
         open(os.path.join(d, "main.pn"), "w").write(VALID_MULTI[0]); open(os.path.join(d, "lib.pn"), "w").write(VALID_MULTI[1])
-        open(os.path.join(d, "bad.pn"), "w").write(INVALID)
+        open(os.path.join(d, "bad.pn"), "w").write(INVALID); open(os.path.join(d, "hint.pn"), "w").write(INVALID_HINT)
+        for rel, text in DIRS.items():
+            os.makedirs(os.path.dirname(os.path.join(d, rel)) or d, exist_ok=True); open(os.path.join(d, rel), "w").write(text)
         for nm in ("stubF", "stubE", "stubC", "clang", "lli"):
             if o["bres"] != "spawnfail": make_stub(d, nm, o["bres"])
         files, ok = inputs[inp]
@@ -106,7 +113,7 @@ def run(tier):
         if m["invoked"] == "true" and o["bres"] == "0" and sub == "run" and ok:
             sp = os.path.join(d, "stdin." + m["backend"].split("/")[-1])
             ir = open(sp, errors="replace").read() if os.path.exists(sp) else ""
-            want = ["main"] + (["twice"] if inp == "multi" else [])
+            want = ["main"] + (["twice"] if inp == "multi" else ["area", "louder"] if inp == "dirs" else [])
             missing = [f for f in want if not __import__("re").search(r"^define [^\n]*@%s\(" % f, ir, __import__("re").M)]
             q = C.sh(["llvm-as", "-o", "/dev/null", sp]) if ir else None
             if missing or q is None or q.returncode != 0:
@@ -122,7 +129,7 @@ def run(tier):
                 if os.path.exists(path) and "wasm32" not in open(path).read().split("target triple")[1].split("\n")[0]:
                     bad += 1; ck.violation("wasm-module-triple", "--wasm: the IR written for module %s does not have the wasm32 target triple" % f, replay); break
         if not ok and not o["silent"]:
-            if b"E402" not in out:
+            if (b"E402" if inp != "hint" else b"E47") not in out:
                 bad += 1; ck.violation("diagnostic-missing", "failing compilation without a rendered diagnostic (%s)" % desc, replay); continue
             if o["color"] == "never" and b"\x1b" in out:
                 bad += 1; ck.violation("color-never-ignored", "--color=never but ANSI escapes were printed (%s)" % desc, replay); continue
